@@ -384,7 +384,7 @@ def run(ctx):
     coq = vp_coq.full_check("C10", ctx, fams=("h5",))
     tg = ctx.build(want_binary=True, harness=("h5cat",))
     dis = []
-    ncfg = 30 if ctx.quick() else 300
+    ncfg = 80 if ctx.quick() else 600
     # boundary corpus first
     corpus = [hc.Cfg(n=16, steps=20, rot="1.5", outstep=7, save=2, currents=[1e-3, 0, 5e-4], shiftx=3, shifty=-2, padding=2),
               hc.Cfg(n=16, steps=10, rot="0.1", outstep=0, save=0, currents=[1e-3], gap=0),
